@@ -38,6 +38,13 @@ func init() {
 		"(reflect.Value).Bool":         ext۰reflect۰Value۰Bool,
 		"(reflect.Value).CanAddr":      ext۰reflect۰Value۰CanAddr,
 		"(reflect.Value).CanInterface": ext۰reflect۰Value۰CanInterface,
+		"(reflect.Value).CanInt":       ext۰reflect۰Value۰CanInt,
+		"(reflect.Value).CanFloat":     ext۰reflect۰Value۰CanFloat,
+		"(reflect.Value).MapRange":     ext۰reflect۰Value۰MapRange,
+		"(*reflect.MapIter).Next":      ext۰reflect۰MapIter۰Next,
+		"(*reflect.MapIter).Key":       ext۰reflect۰MapIter۰Key,
+		"(*reflect.MapIter).Value":     ext۰reflect۰MapIter۰Value,
+		"(reflect.rtype).Key":          ext۰reflect۰rtype۰Key,
 		"(reflect.Value).Elem":         ext۰reflect۰Value۰Elem,
 		"(reflect.Value).Field":        ext۰reflect۰Value۰Field,
 		"(reflect.Value).Float":        ext۰reflect۰Value۰Float,
